@@ -408,6 +408,42 @@ func runPlan(res *core.Result, r *rand.Rand, lp *linkPair, dir wire.Dir, p plan,
 				h := &state.EncryptionSessionTestHelper{EncryptionSession: enc}
 				h.ReglSetOut(0xFFFFFFFF - uint32(8+r.IntN(6)))
 			}
+			if p.kind == "reflect" {
+				// the other direction of this link crosses its own wrap, too (a link that has carried 2^32 frames each
+				// way): both directions then run on rolled-over keys
+				rlink := lp.lb
+				if dir == wire.BtoA {
+					rlink = lp.la
+				}
+				if enc := peering.VerifLinkEncryption(rlink); enc != nil {
+					h := &state.EncryptionSessionTestHelper{EncryptionSession: enc}
+					h.ReglSetOut(0xFFFFFFFF - uint32(4+r.IntN(6)))
+				}
+				want := 24
+				for j := 0; j < want; j++ {
+					f, _, err := makeFrame(r, to, from, 500000+j, 200+r.IntN(800), false)
+					if err != nil {
+						res.Inconcl("make frame: %v", err)
+						return false
+					}
+					_ = rlink.Send(f)
+				}
+				got := 0
+				deadline := time.Now().Add(20 * time.Second)
+				for got < want && time.Now().Before(deadline) && !rlink.IsClosing() {
+					select {
+					case f := <-from.Upstream:
+						f.ReturnToPool()
+						got++
+					case <-time.After(10 * time.Millisecond):
+					}
+				}
+				if got < want {
+					res.Violate("frames-lost-across-key-rollover", fmt.Sprintf("%s %s: only %d of %d intact frames sent in the other direction across its key rollover arrived", p, dir, got, want), map[string]any{"plan": p.String(), "case_id": p.String() + "|" + dir.String()})
+					return false
+				}
+				res.Count("reflect_runs_with_both_directions_rolled_over", 1)
+			}
 		}
 		if !send(k, sizes[r.IntN(len(sizes))]) {
 			return false
@@ -624,6 +660,8 @@ func genPlans(r *rand.Rand, quick bool) []plan {
 		plan{kind: "replay", at: 2, distance: 40, field: "whole-frame", wrap: true}, plan{kind: "duplicate", at: 1, distance: 30, field: "whole-frame", wrap: true},
 		plan{kind: "none", field: "none", wrap: true})
 	ps = append(ps, plan{kind: "reflect", at: 5, field: "whole-frame"}, plan{kind: "reflect", at: 11, field: "whole-frame"})
+	// reflection after both directions of the link rolled their keys over
+	ps = append(ps, plan{kind: "reflect", at: 25, field: "whole-frame", wrap: true}, plan{kind: "reflect", at: 40, field: "whole-frame", wrap: true})
 	for _, d := range []int{2, 3, 62, 63, 64, 65, 66, 128} {
 		ps = append(ps, plan{kind: "gap-replay", at: 4, distance: d, field: "whole-frame"})
 	}
@@ -720,5 +758,6 @@ func run(c *core.Ctx) {
 	res.Assume("frames older than the 64-frame window (hold-and-release by more than 64) may be refused")
 	res.Count("oversize_frames_refused_by_this_trees_parser", oversizeRefused.Load())
 	res.Require(res.Counter("frames_delivered_identical") >= 5000, "fewer than 5000 frames delivered")
+	res.Require(res.Counter("reflect_runs_with_both_directions_rolled_over") >= 2 || res.ViolationCount() > 0, "fewer than 2 reflections after both directions rolled their keys over")
 	res.Require(res.Counter("faults_applied:bitflip") >= 50, "fewer than 50 bit flips applied")
 }
